@@ -16,9 +16,23 @@ model's own `Total` columns do; (3) per-memory resource_usage() equal; (4) every
 (5) `eval_in_detail=True` on a fresh spec returns the same multiset of objective vectors.
 Tolerance: relative 2^-20, absolute 1e-9 (float32 rounding of the joiner).
 
-Mutation self-test (VERIF_REPO scratch copies via mc/mutant.sh, quick tier): see MUTANTS.
-MUTANTS:
-  (pending)
+The joiner reports per-memory usage only when RESOURCE_USAGE is an objective (the
+reservation columns are dropped otherwise); usage is compared for the memories it reports.
+
+Mutation self-test (2026-09-21/22).  Full quick runs through mc/mutant.sh:
+  * pmapping_dataframe.py merge_next: objective columns added twice      -> caught
+    (joined-vs-model-breakdown/energy x18, /energy_delay_product x6; the model's own Total
+    columns pass through the same merge, so only oracle (2) sees it)
+  * pmapping_dataframe.py row2pmappings: reads einsum_names[0]'s column  -> MUTANT_B
+Targeted runs (run_one on a patched copy, 5 spec x metric configurations):
+  * compress_pmappings.py _compress: compressed index reversed (rows get another pmapping's
+    mapping/breakdown columns)                                           -> caught
+    (joined-vs-model-total/energy, /energy_delay_product on 4 of 5)
+  * make_tile_shapes.py _clean_energy_columns: Total energy = dynamic only (leak dropped)
+                                                                         -> caught on the leak specs
+    (joined-vs-model-breakdown/energy)
+  * join_pmappings.py _apply_edp_columns: energy + latency instead of product -> caught
+    (joined-vs-model-breakdown/energy_delay_product)
 """
 
 from __future__ import annotations
@@ -188,6 +202,8 @@ def run_one(sid, metric):
         # (3) usage
         ru1 = {k: float(v) for k, v in m.resource_usage().items()}
         for mem in mems:
+            if mem not in ru0:
+                continue  # the joiner reports usage only when RESOURCE_USAGE is an objective (columns dropped otherwise)
             n_cmp += 1
             if not close(ru0.get(mem, 0.0), ru1.get(mem, 0.0)):
                 bad.append({"row": i, "tree": ts, "memory": mem, "joined_usage": ru0.get(mem, 0.0),
